@@ -36,6 +36,19 @@
 (* the textbook HasSub of Strings.tla for EVERY text and EVERY name - in     *)
 (* particular a text that overlaps itself, behind a partial occurrence of   *)
 (* itself ("oop" in "Looop"); CmdLineLattice supplies the word registry.    *)
+(* The configuration is what the RUN gets, not only what the getters say:  *)
+(* Applied(cfg) is what the runner hands to the output(s) and the registry *)
+(* it works with - one verbosity level (quiet < verbose < very verbose:     *)
+(* -vv prints what -v prints and the internal information, so -vv with or  *)
+(* without -v, in any order, is very verbose), colour, separate process,   *)
+(* run-ignored, crash-on-failure, rethrow, the shuffle seed, the number of *)
+(* test runs.                                                              *)
+(* The millisecond clock is an INPUT of parsing: a seedless -s takes its   *)
+(* seed from it.  Whatever the clock reads - 0, a multiple of 2^32, ... -   *)
+(* the option is documented, the vector is accepted and the seed obeys the *)
+(* constraint the help text puts on seeds ("must be greater than 0").  How *)
+(* the seed is derived from the reading is left open; that the same vector *)
+(* at the same reading yields the same seed is not.                        *)
 (***************************************************************************)
 EXTENDS Integers, Sequences, FiniteSets, TLC, Strings
 
@@ -218,8 +231,18 @@ Selected(t, cfg) ==
          ~(Match(Filt(o.g, o.strict, FALSE), t.g) /\ Match(Filt(o.n, o.strict, FALSE), t.n))     \* "exclude tests whose group and name ..."
     ELSE MatchAny(GF(cfg), t.g) /\ MatchAny(NF(cfg), t.n)
 \* how often the body of probe test t runs
-Runs(t, cfg) == IF cfg.lg \/ cfg.ln \/ cfg.ll THEN 0
+ListMode(cfg) == cfg.lg \/ cfg.ln \/ cfg.ll
+Runs(t, cfg) == IF ListMode(cfg) THEN 0
                 ELSE IF Selected(t, cfg) /\ (~t.ign \/ cfg.ri) THEN IntVal(cfg.repeat) ELSE 0      \* asked only for small repeat counts
+
+-----------------------------------------------------------------------------
+(* what the run gets: the options the runner applies to the output(s) it creates, to the registry and to the test shells *)
+Level(cfg) == IF cfg.vv THEN 2 ELSE IF cfg.verbose THEN 1 ELSE 0         \* 0 quiet, 1 verbose (-v), 2 very verbose (-vv, with or without -v)
+TestRuns(cfg) == IF ListMode(cfg) THEN 0 ELSE IntVal(cfg.repeat)        \* test runs started (asked only for small repeat counts)
+Applied(cfg) == [level |-> Level(cfg), color |-> cfg.color, sep |-> cfg.sep, ri |-> cfg.ri, crash |-> cfg.crash, rethrow |-> cfg.rethrow,
+                 shuffle |-> cfg.shuffle, seed |-> cfg.seed, runs |-> TestRuns(cfg)]
+\* a seed taken from the clock (cfg.seed = <<>>), for every reading of the clock: a number greater than 0
+ClockSeedOK(seed) == IsDigits(seed) /\ Canon(seed) # <<>>
 
 -----------------------------------------------------------------------------
 (* The parser as a state machine: one action per step *)
